@@ -28,9 +28,42 @@ CLAIMED = {
             "DESIGN.md 4.7, 5 (C16)", "pq"),
 }
 
+_SCRIPT_NOTE = ("Trusted: harness/project.py (tree -> node table with content hashes) and harness/flatten.py (edit tree -> "
+                "events; node identity -> table id); TLC. Pairs differing only by numeric cross-type twins (1/1.0/true) "
+                "carry no equality expectation.")
+_SCRIPT_TECH = ("TLA+ contract EditScript.tla; TLC model-checks that clause-respecting scripts read back both documents "
+                "(EditScriptMC); flattened scripts of real diffs validated by TLC against EditScriptTrace.tla")
+CLAIMED.update({
+    "C01": ("model_checking", _SCRIPT_TECH,
+            "EditScript.tla defines a legal script as events against a stack of frames (exactly-once per side, list "
+            "order per side, role-wise pairing of components). TLC proves on small projected documents x 9 option "
+            "sets that every clause-respecting script reads back both documents; every real diff of the corpus "
+            "(small exhaustive domain sampled, random/mutated JSON trees, multisets, XML, all 9 option sets) is "
+            "flattened and validated by TLC event by event, and the annotated tree returned by diff() must carry "
+            "the same removals/insertions as the script.", _SCRIPT_NOTE, "DESIGN.md 4.3, 5 (C01)", "editscript"),
+    "C02": ("model_checking", _SCRIPT_TECH + "; near-equality generator; CLI exit status via Cli.tla",
+            "C02 clauses of EditScript.tla: a zero-cost match pairs equal data, a paid change pairs different data, "
+            "total cost 0 / nothing marked <=> content hashes equal, the library's had-edits flag <=> total > 0. "
+            "Driven by a near-equality generator (half equal modulo key order, half one atomic perturbation).",
+            _SCRIPT_NOTE, "DESIGN.md 4.3, 5 (C02)", "editscript"),
+    "C03": ("model_checking", _SCRIPT_TECH,
+            "C03 clauses: Close(reported) requires reported = sum of the frame's events at every nesting level; "
+            "edited_cost(), sum over get_all_edits() and the refined top-level bounds must equal the script total.",
+            _SCRIPT_NOTE, "DESIGN.md 4.3, 5 (C03)", "editscript"),
+    "C10": ("model_checking", _SCRIPT_TECH,
+            "C10 clauses evaluated at every mapping/list frame of every nesting level against the options the caller "
+            "requested (none: equal keys only; auto: shared keys paired with themselves; list edits off: positional "
+            "pairing, surplus tail only). The legal-script generator EditScriptMC explores all 9 option sets.",
+            _SCRIPT_NOTE, "DESIGN.md 4.3, 5 (C10)", "editscript"),
+})
+
 NOT_YET = "check not built yet in this round (planned: see DESIGN.md section 5)"
 
 ENGINES = [
+    {"name": "editscript", "path": "spec/EditScript.tla spec/EditScriptMC.tla spec/EditScriptTrace.tla harness/project.py "
+                                   "harness/flatten.py harness/corpus.py props/_script.py",
+     "serves_properties": ["C01", "C02", "C03", "C10"],
+     "kind_free_text": "TLA+ script contract + TLC model check of the read-back theorem + TLC trace validation of real diffs"},
     {"name": "pq", "path": "spec/PQ.tla spec/PQGen.tla spec/PQTrace.tla spec/FibHeap.tla props/c16.py",
      "serves_properties": ["C16"],
      "kind_free_text": "TLA+ contract + TLC behaviour enumeration replayed into the real heap + TLC trace validation"},
